@@ -44,6 +44,13 @@ def check(run):
                              plangen=c12.stepped_plan)
     cases += c3
     meta += m3
+    # every document holds all three terms of a conjunction (nested intersections moving inside blocks)
+    c4, m4 = c01.build_cases(run, rng, 8 if quick else 60, 8 if quick else 12, ndocs=(12, 26), blocklimit=None,
+                             paths=("unlimited", "limited"), scored_only=True, cmp="full", kinds=("ranked", "error"),
+                             alt=True, limits=(1, 2, 3), storage="ram",
+                             worldgen=lambda r, n: (c12.dense_docs(r, n), c12.dense_query), plangen=c12.stepped_plan)
+    cases += c4
+    meta += m4
     rejects = qobs.judge(run, cases)
     c01.report(run, "C05", cases, meta, rejects, "c05")
     rank_regime(run, rng, 6 if quick else 60, 12 if quick else 16)
